@@ -249,6 +249,75 @@ fn check_snapshot<S: Strategy<Arc<Probe>> + Default + 'static>(sname: &str, seed
     checks
 }
 
+/// Serialization racing with stores from another thread (second-round seed C20y: the lock-based
+/// strategy read the pointer before taking its lock): whatever a serialization produces must be
+/// one whole, live probe, and successive serializations by one thread never go backwards.
+fn check_concurrent<S: Strategy<Arc<Probe>> + Default + Send + Sync + 'static>(sname: &'static str, seed: u64, stores: u64) -> u64 {
+    let c = Arc::new(ArcSwapAny::<Arc<Probe>, S>::new(Probe::new(1).0));
+    let stop = Arc::new(AtomicBool::new(false));
+    let mut readers = Vec::new();
+    for r in 0..2 {
+        let (c, stop) = (c.clone(), stop.clone());
+        readers.push(std::thread::spawn(move || {
+            let mut last = 0u64;
+            let mut n = 0u64;
+            let mut problems = Vec::new();
+            while !stop.load(Relaxed) || n < 3 {
+                let out = serde_json::to_value(&*c).unwrap();
+                n += 1;
+                let id = out["id"].as_u64().unwrap_or(u64::MAX);
+                let ok = out["destroyed_while_serializing"] == json!(false) && out["text"] == json!(format!("probe-{}", id));
+                if !ok || id < last {
+                    problems.push(format!("strategy {}: reader {} serialized {} (previous id {}) while another thread was storing", sname, r, out, last));
+                    break;
+                }
+                last = id;
+                if n % 16 == 0 {
+                    std::thread::yield_now();
+                }
+            }
+            (n, problems)
+        }));
+    }
+    for i in 2..(2 + stores) {
+        c.store(Probe::new(i).0);
+        if i % 8 == 0 {
+            std::thread::yield_now();
+        }
+    }
+    stop.store(true, Relaxed);
+    let mut total = 0;
+    for h in readers {
+        if let Ok((n, problems)) = h.join() {
+            total += n;
+            for pb in problems {
+                fail("serialize-concurrent-store", pb, seed);
+            }
+        }
+    }
+    drop(c);
+    total
+}
+
+/// The concurrent part on its own (sanitizer and Miri jobs).
+pub fn run_concurrent(seed: u64, rounds: u64, stores: u64) -> u64 {
+    let mut n = 0;
+    for r in 0..rounds {
+        n += check_concurrent::<DefaultStrategy>("default", seed + r, stores);
+        #[allow(deprecated)]
+        {
+            n += check_concurrent::<FillFastSlots>("fallback-only", seed + r, stores);
+        }
+        n += check_concurrent::<std::sync::RwLock<()>>("rwlock", seed + r, stores);
+        crate::sched::PROGRESS.fetch_add(1, Relaxed);
+    }
+    let live = PROBES_LIVE.load(SeqCst);
+    if live != 0 {
+        fail("leak", format!("{} probe value(s) alive after the concurrent serde rounds", live), seed);
+    }
+    n
+}
+
 pub fn run(seed: u64, n: u64) -> (u64, u64) {
     let mut checks = 0;
     let mut rng = Rng::new(seed);
